@@ -211,7 +211,6 @@ class LocalAnomalyScore(BaseLocalAnomalyScore):
         super().__init__()
 
         self._interval_cost = cost
-        self._any_subset_cost: BaseCost = cost.clone()
 
     @property
     def min_size(self) -> int:
@@ -234,6 +233,9 @@ class LocalAnomalyScore(BaseLocalAnomalyScore):
             Reference to self.
         """
         self._interval_cost.fit(X)
+        # Cloned here rather than in __init__: set_params(cost__param=...) changes
+        # `cost` after __init__ has run, and the copy must follow it.
+        self._any_subset_cost: BaseCost = self.cost.clone()
         return self
 
     def _evaluate(self, cuts: np.ndarray) -> np.ndarray:
